@@ -63,6 +63,7 @@ def fname(pkg: str) -> str:
 
 
 STYLE = {"upper": ("Tm", "Tn", "Te", "Tne"), "lower": ("shape", "point", "kind", "mode")}
+_rev_imports = [False]  # import statements in reverse order (protoc hands the plugin dependencies first, in import order)
 _style = ["upper"]  # naming style of the target types: set per case (type names that do not start with a capital look like
 #                     package components to anything that splits dotted names by capitalisation)
 
@@ -110,7 +111,7 @@ def refs_proto(pkg: str, idx: int, targets, wkt: bool, sites: str = "all") -> st
             rpcs += f"  rpc Only{ti}A ({a}) returns ({b});\n  rpc Only{ti}B (stream {a}) returns (stream {b});\n"
         return head + "".join(imports) + body + f"service Svc{idx} {{\n{rpcs}}}\n"
     head = 'syntax = "proto3";\n' + (f"package {pkg};\n" if pkg else "")
-    imports = sorted({f'import "{fname(tp)}_defs.proto";\n' for tp, _ in targets})
+    imports = sorted({f'import "{fname(tp)}_defs.proto";\n' for tp, _ in targets}, reverse=_rev_imports[0])
     if wkt:
         imports += ['import "google/protobuf/timestamp.proto";\n', 'import "google/protobuf/duration.proto";\n',
                     'import "google/protobuf/wrappers.proto";\n', 'import "google/protobuf/empty.proto";\n',
@@ -364,10 +365,12 @@ def targets(ctx):
 
     def all_ev(case):
         _style[0] = case.get("style", "upper")
+        _rev_imports[0] = case.get("order") == "reversed"
         try:
             return _all_ev(case)
         finally:
             _style[0] = "upper"
+            _rev_imports[0] = False
 
     def _all_ev(case):
         pkgs = case["pkgs"]
